@@ -119,6 +119,10 @@ func (core *JApiCore) processKeyword(lexeme scanner.Lexeme) *jerr.JApiError {
 	keyword := lexeme.Value().String()
 	coords := coordsFromLexeme(lexeme)
 	if !core.scannersStack.Empty() && keyword == directive.Jsight.String() {
+		if core.scannersStack.Contains(core.scanner.File().Name()) {
+			// The file which is being included is the root file of an include chain that leads back to it.
+			return core.japiError(jerr.RecursionIsProhibited, coords.Begin())
+		}
 		return core.japiError(
 			fmt.Sprintf("%s %q", jerr.IncludeDirectiveErr, keyword),
 			coords.Begin())
